@@ -2,7 +2,7 @@
     [expr t] as the token image [etoks t] - by induction over the tree, composing the single-token lemmas of LexPrint along
     the printer's layout (blanks around operators, no blank before , ; : and closing delimiters). *)
 From EE Require Import Chars OpTable Decimal Token Lexer Ast Parser Printer Api Etoks Utf8 LexerSpec LexerTiling LexerWs
-  DecimalString DecimalPrint LexPrint PrattFull.
+  DecimalString DecimalPrint LexPrint ParserFuel ParserMono ParserSteps PrattFull PrattParen RoundTrip.
 Open Scope N_scope.
 
 Section LE.
@@ -94,7 +94,7 @@ Proof.
   intros H. destruct b; cbn [Printer.paren ptoks]; [|exact H].
   apply (TX_mono tbl rany kend); [intros; exact I|].
   change (c_lparen :: s ++ [c_rparen]) with ([delim_char DLParen] ++ s ++ [delim_char DRParen]).
-  change (Etoks.paren ts) with ([TDelim DLParen] ++ ts ++ [TDelim DRParen]).
+  change (paren ts) with ([TDelim DLParen] ++ ts ++ [TDelim DRParen]).
   apply (TX_app tbl rany rany); [apply TX_delim | | intros; exact I].
   apply (TX_app tbl kend rany); [exact H | apply TX_delim | intros k _; apply kend_sep; reflexivity].
 Qed.
@@ -118,7 +118,7 @@ Lemma expr_mk nt o l r :
   expr (mk nt o l r) = Printer.paren (negb (Etoks.lbare tbl l o)) (expr l) ++ sp ++ (if nt then s_not ++ sp ++ o else o) ++ sp ++
                        Printer.paren (negb (Etoks.rbare tbl r o)) (expr r).
 Proof.
-  unfold Etoks.lbare, Etoks.rbare. rewrite !negb_involutive.
+  unfold Etoks.lbare, Etoks.rbare, Etoks.lparen, Etoks.rparen. rewrite !negb_involutive.
   destruct nt; cbn [mk Printer.expr]; [change (str_eqb s_not s_not) with true; cbn iota|];
     destruct (binding_power tbl o) as [lb rb]; cbn [fst snd]; reflexivity.
 Qed.
@@ -176,18 +176,18 @@ Proof.
 Qed.
 
 (* ---------- comma-separated elements *)
-Lemma TX_seplist : forall l, l <> [] -> (forall x, In x l -> TX kend (expr x) (etoks x)) -> TX kend (sep_str l) (sep_toks tbl l).
+Lemma TX_seplist : forall l, l <> [] -> (forall x, In x l -> TX kend (expr x) (etoks x)) -> TX kend (sep_str l) (xsep_toks tbl l).
 Proof.
   induction l as [|x r IH]; intros Hne H; [contradiction|]. destruct r as [|y r'].
-  - cbn [sep_str sep_toks]. apply H. left; reflexivity.
+  - cbn [sep_str xsep_toks]. apply H. left; reflexivity.
   - change (sep_str (x :: y :: r')) with (expr x ++ [c_comma] ++ sep_str (y :: r')).
-    change (sep_toks tbl (x :: y :: r')) with (etoks x ++ [TComma] ++ sep_toks tbl (y :: r')).
+    change (xsep_toks tbl (x :: y :: r')) with (etoks x ++ [TComma] ++ xsep_toks tbl (y :: r')).
     apply (TX_app tbl kend kend); [apply H; left; reflexivity | | intros k _; apply kend_sep; reflexivity].
     apply (TX_app tbl rany kend); [apply TX_comma | | intros; exact I].
     apply IH; [discriminate | intros z Hz; apply H; right; exact Hz].
 Qed.
 Lemma TX_sepmap : forall l, l <> [] ->
-  (forall k v, In (k, v) l -> TX kend (expr k) (etoks k) /\ TX kend (expr v) (etoks v)) -> TX kend (sepm_str l) (sep_map tbl l).
+  (forall k v, In (k, v) l -> TX kend (expr k) (etoks k) /\ TX kend (expr v) (etoks v)) -> TX kend (sepm_str l) (xsep_map tbl l).
 Proof.
   induction l as [|[k v] r IH]; intros Hne H; [contradiction|].
   destruct (H k v (or_introl eq_refl)) as [Hk Hv].
@@ -195,12 +195,12 @@ Proof.
   { apply (TX_app tbl kend kend); [exact Hk | | intros k0 _; apply kend_sep; reflexivity].
     apply (TX_app tbl rany kend); [apply TX_colon | exact Hv | intros; exact I]. }
   destruct r as [|p r'].
-  - cbn [sepm_str sep_map]. exact Entry.
+  - cbn [sepm_str xsep_map]. exact Entry.
   - change (sepm_str ((k, v) :: p :: r')) with (expr k ++ s_colon ++ expr v ++ c_comma :: sepm_str (p :: r')).
-    change (sep_map tbl ((k, v) :: p :: r')) with (etoks k ++ TOp s_colon :: etoks v ++ TComma :: sep_map tbl (p :: r')).
+    change (xsep_map tbl ((k, v) :: p :: r')) with (etoks k ++ TOp s_colon :: etoks v ++ TComma :: xsep_map tbl (p :: r')).
     replace (expr k ++ s_colon ++ expr v ++ c_comma :: sepm_str (p :: r')) with ((expr k ++ s_colon ++ expr v) ++ [c_comma] ++ sepm_str (p :: r'))
       by (rewrite <- !app_assoc; reflexivity).
-    replace (etoks k ++ TOp s_colon :: etoks v ++ TComma :: sep_map tbl (p :: r')) with ((etoks k ++ [TOp s_colon] ++ etoks v) ++ [TComma] ++ sep_map tbl (p :: r'))
+    replace (etoks k ++ TOp s_colon :: etoks v ++ TComma :: xsep_map tbl (p :: r')) with ((etoks k ++ [TOp s_colon] ++ etoks v) ++ [TComma] ++ xsep_map tbl (p :: r'))
       by (rewrite <- !app_assoc; reflexivity).
     apply (TX_app tbl kend kend); [exact Entry | | intros k0 _; apply kend_sep; reflexivity].
     apply (TX_app tbl rany kend); [apply TX_comma | | intros; exact I].
@@ -241,13 +241,13 @@ Proof.
     destruct (size_mk nt o l r) as [Sl Sr].
     assert (PSl : psane l /\ psane r) by (destruct nt; cbn [mk psane] in PS; exact PS). destruct PSl as [PSl PSr].
     pose proof (infix_is_op o Hpo) as Oo.
-    rewrite expr_mk, (etoks_mk tbl).
+    rewrite expr_mk, (xetoks_mk tbl).
     apply (TX_app tbl kend kend); [apply TX_paren; apply (IH l); [lia | exact Wl | exact PSl] | |].
     + (* " op " or " not op ", then the right operand *)
       replace (sp ++ (if nt then s_not ++ sp ++ o else o) ++ sp ++ Printer.paren (negb (Etoks.rbare tbl r o)) (expr r))
         with ((sp ++ (if nt then s_not ++ sp ++ o else o)) ++ sp ++ Printer.paren (negb (Etoks.rbare tbl r o)) (expr r))
         by (rewrite <- !app_assoc; reflexivity).
-      unfold rtoks.
+      unfold xrtoks.
       apply (TX_app tbl kstop kend).
       * destruct nt; cbn [optoks].
         -- change [TOp s_not; TOp o] with ([TOp s_not] ++ [TOp o]).
@@ -258,21 +258,21 @@ Proof.
       * intros k _. apply kstop_sp.
     + intros k _. destruct nt; rewrite <- ?app_assoc; [apply (kend_sp_op s_not); exact not_is_op | apply (kend_sp_op o); exact Oo].
   - destruct t; try discriminate Hil; try discriminate W.
-    + (* literal *) cbn [Printer.expr Etoks.etoks]. apply TX_lit. exact PS.
+    + (* literal *) cbn [Printer.expr]. change (etoks (ALit l)) with [lit_tok l]. apply TX_lit. exact PS.
     + (* prefix operator *)
-      destruct (wf_unary tbl _ _ Hil W) as [Hp We]. rewrite (expr_unary _ _ Hil), (etoks_unary tbl _ _ Hil).
+      destruct (wf_unary tbl _ _ Hil W) as [Hp We]. rewrite (expr_unary _ _ Hil), (xetoks_unary tbl _ _ Hil).
       change (TOp op :: ptoks (is_ternary t || is_infix_like t) (etoks t)) with ([TOp op] ++ ptoks (is_ternary t || is_infix_like t) (etoks t)).
       apply (TX_app tbl kstop kend); [apply TX_op; apply prefix_is_op; exact Hp | | intros; apply kstop_sp].
       apply TX_sp. apply TX_paren. apply (IH t); [cbn [size] in Hs; lia | exact We | exact PS].
     + (* postfix operator *)
-      cbn [wf] in W. apply andb_prop in W as [Hpo We]. cbn [Printer.expr Etoks.etoks].
+      cbn [wf] in W. apply andb_prop in W as [Hpo We]. cbn [Printer.expr]. rewrite (xetoks_postfix tbl).
       apply (TX_mono tbl kstop kend); [apply kend_kstop|].
       apply (TX_app tbl kend kstop); [apply TX_paren; apply (IH t); [cbn [size] in Hs; lia | exact We | exact PS] | |].
       * apply TX_sp_op. apply postfix_is_op. exact Hpo.
       * intros k _. apply kend_sp_op. apply postfix_is_op. exact Hpo.
     + (* conditional *)
       cbn [wf] in W. apply andb_prop in W as [W Wb]. apply andb_prop in W as [Wc Wa]. destruct PS as (PSc & PSa & PSb).
-      cbn [size] in Hs. cbn [Printer.expr Etoks.etoks].
+      cbn [size] in Hs. cbn [Printer.expr]. rewrite (xetoks_ternary tbl).
       apply (TX_app tbl kend kend); [apply TX_paren; apply (IH t1); [lia | exact Wc | exact PSc] | |].
       * change (TOp s_qmark :: etoks t2 ++ TOp s_colon :: etoks t3) with ([TOp s_qmark] ++ etoks t2 ++ [TOp s_colon] ++ etoks t3).
         replace (sp ++ s_qmark ++ sp ++ expr t2 ++ sp ++ s_colon ++ sp ++ expr t3)
@@ -283,38 +283,38 @@ Proof.
            apply TX_sp. apply (IH t3); [lia | exact Wb | exact PSb].
         -- intros k _. rewrite <- app_assoc. apply kend_sp; reflexivity.
       * intros k _. apply kend_sp; reflexivity.
-    + (* name *) cbn [Printer.expr Etoks.etoks]. apply TX_name. exact PS.
+    + (* name *) cbn [Printer.expr]. change (etoks (ARef n0)) with [TRef n0]. apply TX_name. exact PS.
     + (* call *)
-      destruct PS as [PN PA]. rewrite (wf_func tbl) in W. rewrite expr_func, (etoks_func tbl). cbn [size] in Hs. fold (sizel args) in Hs.
-      change (TFunc n0 :: TDelim DLParen :: sep_toks tbl args ++ [TDelim DRParen]) with ([TFunc n0; TDelim DLParen] ++ sep_toks tbl args ++ [TDelim DRParen]).
+      destruct PS as [PN PA]. rewrite (wf_func tbl) in W. rewrite expr_func, (xetoks_func tbl). cbn [size] in Hs. fold (sizel args) in Hs.
+      change (TFunc n0 :: TDelim DLParen :: xsep_toks tbl args ++ [TDelim DRParen]) with ([TFunc n0; TDelim DLParen] ++ xsep_toks tbl args ++ [TDelim DRParen]).
       replace (n0 ++ c_lparen :: sep_str args ++ [c_rparen]) with ((n0 ++ [c_lparen]) ++ sep_str args ++ [c_rparen])
         by (rewrite <- app_assoc; reflexivity).
       apply (TX_mono tbl rany kend); [intros; exact I|].
       apply (TX_app tbl rany rany); [apply TX_fname; exact PN | | intros; exact I].
       destruct args as [|a0 ar].
-      * cbn [sep_str sep_toks app]. apply (TX_delim tbl DRParen).
+      * cbn [sep_str xsep_toks app]. apply (TX_delim tbl DRParen).
       * apply (TX_app tbl kend rany); [| apply (TX_delim tbl DRParen) | intros k _; apply kend_sep; reflexivity].
         apply TX_seplist; [discriminate|]. intros x Hx.
         apply (IH x); [pose proof (sizel_in (a0 :: ar) x Hx); lia | apply (wfl_in (a0 :: ar) W x Hx) | apply (psane_list_in (a0 :: ar) PA x Hx)].
     + (* list *)
-      rewrite (wf_list tbl) in W. rewrite expr_list, (etoks_list tbl). cbn [size] in Hs. fold (sizel es) in Hs.
-      change (TDelim DLBrack :: sep_toks tbl es ++ [TDelim DRBrack]) with ([TDelim DLBrack] ++ sep_toks tbl es ++ [TDelim DRBrack]).
+      rewrite (wf_list tbl) in W. rewrite expr_list, (xetoks_list tbl). cbn [size] in Hs. fold (sizel es) in Hs.
+      change (TDelim DLBrack :: xsep_toks tbl es ++ [TDelim DRBrack]) with ([TDelim DLBrack] ++ xsep_toks tbl es ++ [TDelim DRBrack]).
       change (c_lbrack :: sep_str es ++ [c_rbrack]) with ([delim_char DLBrack] ++ sep_str es ++ [delim_char DRBrack]).
       apply (TX_mono tbl rany kend); [intros; exact I|].
       apply (TX_app tbl rany rany); [apply TX_delim | | intros; exact I].
       destruct es as [|a0 ar].
-      * cbn [sep_str sep_toks app]. apply TX_delim.
+      * cbn [sep_str xsep_toks app]. apply TX_delim.
       * apply (TX_app tbl kend rany); [| apply TX_delim | intros k _; apply kend_sep; reflexivity].
         apply TX_seplist; [discriminate|]. intros x Hx.
         apply (IH x); [pose proof (sizel_in (a0 :: ar) x Hx); lia | apply (wfl_in (a0 :: ar) W x Hx) | apply (psane_list_in (a0 :: ar) PS x Hx)].
     + (* map *)
-      rewrite (wf_map tbl) in W. rewrite expr_map, (etoks_map tbl). cbn [size] in Hs. fold (sizem kvs) in Hs.
-      change (TDelim DLBrace :: sep_map tbl kvs ++ [TDelim DRBrace]) with ([TDelim DLBrace] ++ sep_map tbl kvs ++ [TDelim DRBrace]).
+      rewrite (wf_map tbl) in W. rewrite expr_map, (xetoks_map tbl). cbn [size] in Hs. fold (sizem kvs) in Hs.
+      change (TDelim DLBrace :: xsep_map tbl kvs ++ [TDelim DRBrace]) with ([TDelim DLBrace] ++ xsep_map tbl kvs ++ [TDelim DRBrace]).
       change (c_lbrace :: sepm_str kvs ++ [c_rbrace]) with ([delim_char DLBrace] ++ sepm_str kvs ++ [delim_char DRBrace]).
       apply (TX_mono tbl rany kend); [intros; exact I|].
       apply (TX_app tbl rany rany); [apply TX_delim | | intros; exact I].
       destruct kvs as [|a0 ar].
-      * cbn [sepm_str sep_map app]. apply TX_delim.
+      * cbn [sepm_str xsep_map app]. apply TX_delim.
       * apply (TX_app tbl kend rany); [| apply TX_delim | intros k _; apply kend_sep; reflexivity].
         apply TX_sepmap; [discriminate|]. intros k v Hx.
         destruct (wfm_in (a0 :: ar) W k v Hx) as [Wk Wv]. destruct (psane_map_in (a0 :: ar) PS k v Hx) as [Pk Pv]. destruct (sizem_in (a0 :: ar) k v Hx) as [Sk Sv].
